@@ -352,6 +352,27 @@ func propC08(w *World, r *Report) {
 			}
 		}
 	}
+	// ... and nowhere else: a call from Reset, the constructor or any other function of the repository is held to the
+	// same guard (with a fixed threshold nothing would ever restore the configured value)
+	inDetect := map[*ssa.BasicBlock]bool{}
+	for _, b := range detectBlocks(w, d, k) {
+		inDetect[b] = true
+	}
+	for _, g := range w.RepoFuncs() {
+		for _, b := range g.Blocks {
+			if inDetect[b] {
+				continue
+			}
+			for _, in := range b.Instrs {
+				if call, ok := in.(ssa.CallInstruction); ok {
+					if c := call.Common().StaticCallee(); c != nil && (c == k.updateBg || c == k.calcThresh) {
+						gs := e.guardsOf(b)
+						r.Check(hasGuard(gs, d.leaf("dynamicThresh")), "N5", c.Name()+" (called from "+g.Name()+", outside the per-frame path) runs only with dynamic thresholding", w.InstrPos(in), strings.Join(guardStrings(gs), " ; "))
+					}
+				}
+			}
+		}
+	}
 	r.Floor("N5", 2)
 	// N6: the processor's use of the frame
 	runs, err := getMotionRuns(w)
@@ -712,7 +733,20 @@ func (e *termEnv) ivOfIsLoopCounter(p *ssa.Phi) bool {
 func checkPixelsChanged(w *World, r *Report, d *detInfo, k *kernels, fam string) {
 	e := newTermEnv(w)
 	fn := k.pixelsChanged
-	paths, complete := enumPathsInl(e, fn, 256, func(c *ssa.Function) bool { return k.hasMotion != nil && c == k.hasMotion })
+	stage := sameReceiverHelperOf(fn)
+	kernel := map[*ssa.Function]bool{}
+	for _, kf := range []*ssa.Function{k.updateBg, k.calcThresh, k.diffAbs, k.diffWarm, k.countOne, k.countTwo, k.reset, k.ffcPred} {
+		if kf != nil {
+			kernel[kf] = true
+		}
+	}
+	paths, complete := enumPathsInl(e, fn, 512, func(c *ssa.Function) bool {
+		if k.hasMotion != nil && c == k.hasMotion {
+			return true
+		}
+		// a gating / bookkeeping step extracted from the selection logic into a method of the detector
+		return !kernel[c] && stage(c) && isPtrTo(c.Signature.Recv().Type(), d.T)
+	})
 	if !complete {
 		r.Unknown(fam+"6", fn.Name(), w.Pos(fn.Pos()), "selection logic is not loop-free")
 		return
@@ -728,7 +762,18 @@ func checkPixelsChanged(w *World, r *Report, d *detInfo, k *kernels, fam string)
 	}
 	// first-diff flag: the bool field stored in this function
 	var flag int = -1
+	var famBlocks []*ssa.BasicBlock
+	famBlocks = append(famBlocks, fn.Blocks...)
 	for _, b := range fn.Blocks {
+		for _, in := range b.Instrs {
+			if c, ok := in.(*ssa.Call); ok {
+				if callee := c.Call.StaticCallee(); callee != nil && !kernel[callee] && callee != k.hasMotion && len(callee.Blocks) > 0 && callee.Signature.Recv() != nil && isPtrTo(callee.Signature.Recv().Type(), d.T) && stage(callee) {
+					famBlocks = append(famBlocks, callee.Blocks...)
+				}
+			}
+		}
+	}
+	for _, b := range famBlocks {
 		for _, in := range b.Instrs {
 			if st, ok := in.(*ssa.Store); ok {
 				if fa, ok := st.Addr.(*ssa.FieldAddr); ok && isPtrTo(fa.X.Type(), d.T) {
@@ -888,21 +933,61 @@ func hasGuardContaining(gs []Guard, condStr string, pos bool) bool {
 	return false
 }
 
-// isCopyInto: a call that copies the input frame into another frame (Frame.Copy or a helper around it).
+// isCopyInto: a call that copies the input frame into another frame: Frame.Copy, or a helper every path of which
+// passes a Frame.Copy call and which never stores into a frame's row table (that would alias the rows of the input
+// with the ring slot instead of copying them).
 func isCopyInto(callee *ssa.Function, call *ssa.Call) bool {
+	isCopy := func(in ssa.Instruction) bool {
+		c, ok := in.(*ssa.Call)
+		if !ok {
+			return false
+		}
+		cc := c.Call.StaticCallee()
+		return cc != nil && cc.Name() == "Copy" && cc.Signature.Recv() != nil
+	}
 	if callee.Name() == "Copy" && callee.Signature.Recv() != nil {
 		return true
 	}
+	if len(callee.Blocks) == 0 {
+		return false
+	}
+	has := false
+	copies := map[*ssa.BasicBlock]bool{}
 	for _, b := range callee.Blocks {
 		for _, in := range b.Instrs {
-			if c, ok := in.(*ssa.Call); ok {
-				if cc := c.Call.StaticCallee(); cc != nil && cc.Name() == "Copy" && cc.Signature.Recv() != nil {
-					return true
+			if isCopy(in) {
+				has = true
+				copies[b] = true
+			}
+			if st, ok := in.(*ssa.Store); ok {
+				if fa, ok := st.Addr.(*ssa.FieldAddr); ok && isPixField(fa) {
+					return false
 				}
 			}
 		}
 	}
-	return false
+	if !has {
+		return false
+	}
+	// a return reachable without passing a copy?
+	seen := map[*ssa.BasicBlock]bool{}
+	var walk func(b *ssa.BasicBlock) bool
+	walk = func(b *ssa.BasicBlock) bool {
+		if seen[b] || copies[b] {
+			return false
+		}
+		seen[b] = true
+		if _, ok := b.Instrs[len(b.Instrs)-1].(*ssa.Return); ok {
+			return true
+		}
+		for _, s := range b.Succs {
+			if walk(s) {
+				return true
+			}
+		}
+		return false
+	}
+	return !walk(callee.Blocks[0])
 }
 
 func sameFrame(arg ssa.Value, cur ssa.Value, copyCall *ssa.Call) bool {
